@@ -23,6 +23,7 @@ LEVEL_ASSUMPTIONS = [
     "the decided clause is 'bound <= bins of every packing we can exhibit': "
     "optimum known by construction / search, not for arbitrary instances"]
 REQUIRED = {"witness_checked": 300, "bound_tight": 50,
+            "huge_strip_instances_beyond_2^53": 50,
             "damv_above_area": 20, "contract_lower_bound_evaluated": 500,
             "tiny_exhaustive_search": 20}
 MON = None
@@ -155,7 +156,8 @@ def constructed_case(ctx, rng):
     return desc, rows, k, bool(shrink), style
 
 
-def judge_bound(ctx, desc, inst, k_witness, exact, origin, witness_rows):
+def judge_bound(ctx, desc, inst, k_witness, exact, origin, witness_rows,
+                light=False):
     A = desc["W"] * desc["H"]
     area = sum(w * h * r for w, h, r in desc["items"])
     area_lb = max(1, -(-area // A))
@@ -192,6 +194,8 @@ def judge_bound(ctx, desc, inst, k_witness, exact, origin, witness_rows):
     if BinCount(inst).lower_bound() != lb:
         ctx.violation("BinCount.lower_bound-differs", "BinCount.lower_bound() "
                       "!= lower_bound_bins", case)
+    if light:      # millions of items: the bound is what is judged here
+        return
     try:
         sp = InstanceSpace(inst)
         ctx.count("instance_space_built")
@@ -222,6 +226,34 @@ def decode_some(ctx, desc, inst, n=3):
     return best
 
 
+def strips_case(ctx, rng):
+    """Bins 10^11..10^12 wide and 2..8 high, filled with 1-high strips: the
+    number of bins times the bin width exceeds 2^53 (areas stay < 2^63), the
+    witness is the obvious stacking, H full-width strips per bin."""
+    W = int(rng.integers(5 * 10 ** 11, 10 ** 12 + 1))
+    H = int(rng.integers(2, 9))
+    k = int(rng.integers(9_100, 40_000))
+    delta = int(rng.choice([0, 0, 1, H - 1, -1]))
+    ra = H * k + delta                     # full-width strips
+    halves = int(rng.choice([0, 0, 2, 3, 2 * H]))
+    items = [[W, 1, ra]]
+    if halves:
+        items.append([W // 2, 1, halves])
+    rows_needed = ra + -(-halves // 2)
+    bins = -(-rows_needed // H)
+    exact = (delta == 0 and halves == 0) or (
+        rows_needed % H == 0 and halves % 2 == 0 and W % 2 == 0)
+    desc = {"name": wb._name(rng), "W": W, "H": H, "items": items,
+            "cls": "strips"}
+    inst = wb.make_real(desc)
+    ctx.count("huge_strip_instances")
+    if bins * W > 2 ** 53:
+        ctx.count("huge_strip_instances_beyond_2^53")
+    judge_bound(ctx, desc, inst, bins, exact,
+                f"{H} full-width strips per bin, half-width strips in "
+                f"pairs", None, light=True)
+
+
 def run_shard(ctx, args):
     rng = ctx.rng
     _monitor(ctx)
@@ -229,6 +261,9 @@ def run_shard(ctx, args):
     for it in range(args["n"]):
         mode = it % 10
         try:
+            if it % 25 == 7:
+                strips_case(ctx, rng)
+                continue
             if mode < 6:
                 desc, rows, k, shrunk, style = constructed_case(ctx, rng)
                 why = po.infeasibility(desc, rows, k)
@@ -315,4 +350,5 @@ def replay(ctx, case):
         assert po.infeasibility(desc, case["witness"],
                                 case["k_witness"]) is None
     judge_bound(ctx, desc, inst, case["k_witness"], case["exact"],
-                case["origin"], case.get("witness"))
+                case["origin"], case.get("witness"),
+                light=desc.get("cls") == "strips")
